@@ -6,6 +6,7 @@ import Driver.Util
 import Driver.ElimTree
 import Driver.NonnegMean
 import Driver.Merge
+import Driver.Assorter
 open Lean Shangrla Shangrla.Drv
 
 def dispatch (g op : String) (a : Json) : R Json :=
@@ -13,6 +14,7 @@ def dispatch (g op : String) (a : Json) : R Json :=
   | "elimtree" => ElimTreeH.handle op a
   | "nm" => NMH.handle op a
   | "merge" => MergeH.handle op a
+  | "assorter" => AssorterH.handle op a
   | _ => throw s!"unknown group {g}"
 
 def handleLine (line : String) : String :=
